@@ -143,7 +143,8 @@ func TestC04_Matrix(t *testing.T) {
 	r.ExhaustiveOf = "specimen(kind/container oddity) x wrapper x literal class (incl. width-overflowing numbers) x 4 operator pairs x in/contains"
 	evalCache = map[string]*bexpr.Evaluator{}
 	defer func() { evalCache = nil }()
-	lits := []string{"1", "a", "true", "1.5", "", "(", "99999999999999999999", "-1", "300", "257", "70000", "-129", "4294967297", "0x1", "1e40"}
+	lits := []string{"1", "a", "true", "1.5", "", "(", "99999999999999999999", "-1", "300", "257", "70000", "-129", "4294967297", "0x1", "1e40",
+		"1.50000005960464477539062500001", "1.5", "16777217.0000000001"}
 	n := 0
 	for _, sp := range c09Specimens() {
 		for _, w := range c09Wrap(sp) {
